@@ -332,9 +332,60 @@ def _stress(case: Dict[str, Any], res: CaseResult) -> None:
     res.cls("stress")
 
 
+def _buildstress(case: Dict[str, Any], res: CaseResult) -> None:
+    """Free-running builds: every thread describes its own DAG again and again while the others do the same, with
+    the interpreter switching threads as often as it can (sys.setswitchinterval(1e-6)), so that hand-overs of
+    tawazi's build lock between builders happen at every possible bytecode."""
+    import sys
+
+    progs = case["progs"]
+    alone = [dump(prog.build(P, mc=2).dag) for P in progs]
+    want = [prog.ref_run(P, [], prog.Ref()) for P in progs]
+    errs: List[str] = []
+    n_rounds = case["n_rounds"]
+    barrier = threading.Barrier(len(progs))
+
+    def work(t: int) -> None:
+        try:
+            barrier.wait(10)
+            for i in range(n_rounds):
+                b = prog.build(progs[t], mc=2)
+                if dump(b.dag) != alone[t]:
+                    errs.append(f"thread {t} build {i}: the DAG differs from the same DAG built alone")
+                    return
+                if i % 4 == 0:
+                    v = b.dag()
+                    if prog.foreign_objects(v) or v != want[t]:
+                        errs.append(f"thread {t} build {i}: the built DAG returns {v!r}, reference {want[t]!r}")
+                        return
+        except BaseException as e:  # noqa: BLE001
+            errs.append(f"thread {t}: building raised {type(e).__name__}: {str(e)[:200]}")
+
+    old = sys.getswitchinterval()
+    sys.setswitchinterval(1e-6)
+    try:
+        ths = [threading.Thread(target=work, args=(t,), daemon=True) for t in range(len(progs))]
+        for th in ths:
+            th.start()
+        for th in ths:
+            th.join(90)
+    finally:
+        sys.setswitchinterval(old)
+    if any(th.is_alive() for th in ths):
+        res.inconclusive = "buildstress-threads-did-not-finish"
+        return
+    if errs:
+        res.viol("concurrent-build", errs[0])
+    res.evals = len(progs) * n_rounds
+    res.nontrivial = True
+    res.cls("build-stress")
+
+
 def run_case(case: Dict[str, Any]) -> CaseResult:
     res = CaseResult()
-    if case["family"] == "stress":
+    if case["family"] == "buildstress":
+        _buildstress(case, res)
+    elif case["family"] == "stress":
         _stress(case, res)
     else:
         _script(case, res)
@@ -347,6 +398,10 @@ def cases(draw: Any, tier: str) -> Dict[str, Any]:
                                 n_setup=draw(st.integers(0, 1)), name="S"))
     # make sure the argument matters
     shared["body"][-1]["args"].append(["p", "p0"])
+    if draw(st.sampled_from([True] + [False] * 11)):
+        progs = [draw(gen.flat_prog(min_sites=1, max_sites=4, max_deps=2, resources=("thread", "main-thread"),
+                                    dep_kinds=("pos", "kw"), name=f"BS{t}", reuse=True)) for t in range(draw(st.integers(2, 4)))]
+        return {"family": "buildstress", "progs": progs, "n_rounds": draw(st.integers(10, 30))}
     if draw(st.sampled_from([True] + [False] * 9)):
         return {"family": "stress", "shared": shared, "n_threads": 8, "n_calls": draw(st.integers(10, 40)), "mc": draw(st.integers(1, 3))}
     nthreads = draw(st.integers(2, 3))
